@@ -79,6 +79,11 @@ CHECKS = {
    text="(a) every node of every ExprBuilder program carries the model typing (shape/dtype, cross-checked against ArraySem inside TLC by the ShapeSound/IxSound invariants); the real node must announce the same ndim/shape/dtype, evaluate to exactly that, and evaluate given only the arguments it announces. (b) IntBounds.tla states soundness of the interval transfer functions per constructor and is checked exhaustively by TLC (spec mutant: naive Inflate rule violates); every integer node of the real code is evaluated at all loop iterations and must lie in its _intbounds.",
    note="Only soundness of ranges is demanded, never tightness; function.Array level metadata is left to C07.",
    technique="TLA+ typing rules + TLA+ interval-soundness spec (TLC exhaustive) + replay of generated programs node by node"),
+ 'C07': dict(
+   category='model_checking',
+   text="NumpySem.tla is an exact rational model of NumPy array semantics: broadcasting; the kind promotion lattice with the per-function minimum; basic, advanced and mask indexing; the reshape/transpose family; stack/concatenate/take/choose/compress/repeat; reductions; dot/matmul/vdot/cross/einsum; trace/diagonal; det/inv/norm; searchsorted/interp; and the shape/kind rule of the transcendental ufuncs; every call returns a value or a REJECT / TYPEERR / NODEMAND verdict. FuncBuilder.tla is a state machine with one action per call family whose behaviours are compositions of these calls over constants, arguments, raw operands and point-dependent leaves (coordinate, element index, basis); the leaves' exact per-point values on six samples (two of them product samples with two point axes) are model constants that the harness first binds to the real samples. TLC explores it exhaustively per family (1-3 calls) and by simulation (up to 4 calls), checks the invariants VerdictUniform, SizeLaw, BroadcastLaw, KindLaw and StructLaw (a promotion spec mutant must violate) and emits each program with predicted shape, kind and per-point values or verdict. Each program is replayed through the same NumPy API calls (NEP-13/18 dispatch) on nutils function arrays: .shape/.dtype and numpy.shape/ndim/size are compared before evaluation, sample.eval at every point afterwards; REJECT must raise when the expression is built; operator and method spellings must agree. Every behaviour is also cross-checked against the installed numpy on plain ndarrays: a disagreement there is a model bug (machinery failure), never a finding.",
+   note="Only the element kind is compared, never the width; entries the rational model leaves undefined (irrational roots, transcendental values, magnitudes above 20000) are compared with numpy on the operands' values at that point; points where numpy itself yields inf/nan and discontinuous calls on inexact floats are not judged; declared refusals and legacy NumPy forms for 0-d operands are skipped and counted; eig/eigh are not modelled; arrays have <= 12 entries and rank <= 3, samples are a 2-element line, a 2x1 rectilinear mesh and their products; the recorded known-finding keys (combined index arrays, zero-size arrays, boolean corner cases, unbounded integer indices) mask regressions inside exactly those code paths; action coverage is computed from emitted behaviours.",
+   technique="TLA+ NumPy-semantics model + program-building state machine checked by TLC; every emitted program replayed through NEP-13/18 dispatch on real function arrays and samples"),
  'C12': dict(
    category='model_checking',
    text="Five TLA+ design models checked by TLC. Basis/BasisSpline/BasisMachine model 1-D B-spline structure twice (from the knot-vector definition and as a transcription of topology.py's index arithmetic; invariants SplImplRefines, dimension formula, p+1 functions per element, continuity C^(p-m) from multiplicity or the continuity argument) with tensor products, discont/Legendre, removedofs, Mask, Prune and Part as actions (InverseMaps, NoDeadDof, InvUnit and the action property StepProp in every state); MergeIndex models util.merge_index_map as the code's pointer machine (Downwards, RootsAreReps, result = equivalence-class numbering); BasisNodal covers every small simplex mesh with std/lagrange/bernstein/bubble/discont as lattice-node gluing; BasisHier classical and truncated hierarchical bases on every small dyadic refinement incl. periodic; BasisMulti multipatch splines glued along shared sides. S->C: every emitted state carries the predicted structure (ndofs, per-element dof lists, supports, interface continuity orders, partition-of-unity elements); the same basis is built through the public nutils API and get_dofs/get_support/ndofs compared exactly (up to renumbering for C0 simplex bases), then the numeric clauses are checked as the model predicts them: sample.eval(basis) equals get_coefficients scattered to get_dofs, the non-zero set equals the dof list, the sum is one where predicted, jumps of all derivatives up to the promised order vanish on every interface, alternative public routes to the same basis agree. T: the dof tables of every replayed basis and of Mask/Prune/Part children are loaded by TLC and judged for InverseMaps and MaskOp/PruneOp/PartOp.",
